@@ -43,7 +43,8 @@ MANIFEST = {
                      "two-step histories (verify, change a body field of the same value, verify again); TLC computes the single expected verdict "
                      "(Verify and no guardian counted twice) for every recorded evaluation from its abstract [idx, signer] description. The two "
                      "verification sites of observation.go (single gossiped signature, inbound signed VAA) are driven with the same corruption "
-                     "classes on the real processor and validated by TLC against Processor.tla.",
+                     "classes on the real processor and validated by TLC against Processor.tla. A concurrent leg verifies a valid and a corrupted list "
+                     "over twelve different messages at once (one goroutine each), every distinct outcome being judged by TLC like a sequential one.",
                 ref="6/C06", note=NOTE, technique="TLA+ model checking (TLC) of the verification lemmas + model-based testing / trace validation of "
                                                   "the real VerifySignatures (node and explorer link)"),
     "C07": dict(text="Quorum.tla: Q(n) = floor(2n/3)+1, the three BFT lemmas and minimality for n = 1..255 (thorough: ..20000), agreement with the "
